@@ -3,7 +3,10 @@
 #pragma once
 #include <tbox/event/loop.h>
 #include <tbox/network/dns_request.h>
+#include <tbox/event/fd_event.h>
 #include <arpa/inet.h>
+#include <cerrno>
+#include <tuple>
 #include <sys/socket.h>
 #include <sys/syscall.h>
 #include <unistd.h>
@@ -35,6 +38,41 @@ extern "C" ssize_t sendto(int, const void *buf, size_t n, int, const struct sock
     g_sent.push_back(s);
   }
   return (ssize_t)n;
+}
+
+// Incoming datagrams through the REAL receive path: the harness calls UdpSocket::onSocketEvent(kReadEvent) (what the loop
+// does when the descriptor is readable) and the executable's own recvfrom() plays the kernel: it hands out the queued
+// datagram (copying at most `len` bytes, like UDP), or 0 (empty datagram), or -1/EAGAIN. The rest of the caller's
+// buffer is left untouched (= whatever the dead stack held: the painted value) and, in the ASan build, poisoned for the
+// duration of the call, so that reading more than `rsize` bytes is a report and not only a paint difference.
+#if defined(__SANITIZE_ADDRESS__)
+extern "C" void __asan_poison_memory_region(void const volatile *, size_t);
+extern "C" void __asan_unpoison_memory_region(void const volatile *, size_t);
+#endif
+enum RxMode { RX_REAL = 0, RX_DATAGRAM, RX_ZERO, RX_ERROR };
+static int g_rx_mode = RX_REAL; static const uint8_t *g_rx_data = nullptr; static size_t g_rx_size = 0; static uint32_t g_rx_from_ip = 0;
+static int g_rx_calls = 0; static void *g_rx_poison = nullptr; static size_t g_rx_poison_len = 0;
+extern "C" ssize_t recvfrom(int fd, void *buf, size_t len, int flags, struct sockaddr *addr, socklen_t *alen) {
+  if (g_rx_mode == RX_REAL) return (ssize_t)syscall(SYS_recvfrom, fd, buf, len, flags, addr, alen);
+  g_rx_calls++;
+  if (g_rx_mode == RX_ERROR) { errno = EAGAIN; return -1; }
+  size_t n = g_rx_mode == RX_ZERO ? 0 : (g_rx_size < len ? g_rx_size : len);
+  if (n) memcpy(buf, g_rx_data, n);
+  if (addr && alen && *alen >= sizeof(struct sockaddr_in)) { struct sockaddr_in in; memset(&in, 0, sizeof in); in.sin_family = AF_INET; in.sin_port = htons(53); in.sin_addr.s_addr = g_rx_from_ip; memcpy(addr, &in, sizeof in); *alen = sizeof in; }
+#if defined(__SANITIZE_ADDRESS__)
+  if (len > n) { g_rx_poison = (uint8_t *)buf + n; g_rx_poison_len = len - n; __asan_poison_memory_region(g_rx_poison, g_rx_poison_len); }
+#endif
+  return (ssize_t)n;
+}
+// one readable event on the DNS socket with the given kernel behaviour; returns the number of recvfrom() calls made
+static inline int socket_event(network::DnsRequest *d, int mode, const uint8_t *p, size_t n, uint32_t from_ip_net) {
+  g_rx_mode = mode; g_rx_data = p; g_rx_size = n; g_rx_from_ip = from_ip_net; g_rx_calls = 0;
+  d->udp_.onSocketEvent(event::FdEvent::kReadEvent);
+  g_rx_mode = RX_REAL;
+#if defined(__SANITIZE_ADDRESS__)
+  if (g_rx_poison) { __asan_unpoison_memory_region(g_rx_poison, g_rx_poison_len); g_rx_poison = nullptr; }
+#endif
+  return g_rx_calls;
 }
 
 static inline std::string hex(const uint8_t *p, size_t n) { static const char *d = "0123456789abcdef"; std::string s; for (size_t i = 0; i < n; i++) { s += d[p[i] >> 4]; s += d[p[i] & 15]; } return s.empty() ? "<empty>" : s; }
@@ -119,31 +157,40 @@ static Strict ref_strict(const uint8_t *d, size_t n) {
 // come from the datagram under any reading.
 //   L6 the owner name of a record and the question name are not reported, so only their framing counts: labels
 //      are skipped, a compression pointer ends the name after its two bytes, its target is not examined.
-struct Generous { std::set<Addr> a; std::set<std::string> c; size_t max_a = 0, max_c = 0; };
+struct Generous { std::set<Addr> a; std::set<std::string> c; size_t max_a = 0, max_c = 0; std::set<std::tuple<size_t, unsigned, size_t, size_t>> memo; };
 static bool skip_name(const uint8_t *d, size_t n, size_t off, size_t &end) {
   for (;;) { if (off >= n) return false; uint8_t l = d[off]; if (l == 0) { end = off + 1; return true; }
     if ((l & 0xc0) == 0xc0) { if (off + 2 > n) return false; end = off + 2; return true; }
     if (off + 1 + l > n) return false; off += 1 + (size_t)l; }
 }
-static void gen_rr(const uint8_t *d, size_t n, size_t off, unsigned left, size_t na, size_t nc, Generous &g, int depth) {
-  if (na > g.max_a) g.max_a = na; if (nc > g.max_c) g.max_c = nc;
-  if (left == 0 || off >= n || depth > 64) return;
-  if (!skip_name(d, n, off, off)) return;
-  if (off + 10 > n) return;
-  unsigned type = rd16(d, off), rdlen = rd16(d, off + 8); size_t rdata = off + 10;
-  if (type == 1) {
-    if (rdata + 4 > n) return;
-    g.a.insert(Addr{{d[rdata], d[rdata + 1], d[rdata + 2], d[rdata + 3]}});
-    gen_rr(d, n, rdata + 4, left - 1, na + 1, nc, g, depth + 1);
-    if (rdlen != 4 && rdata + rdlen <= n) gen_rr(d, n, rdata + rdlen, left - 1, na + 1, nc, g, depth + 1);
-  } else if (type == 5) {
-    NameRes c = ref_name(d, n, rdata, true); if (!c.ok) return;
-    g.c.insert(render(c.labels));
-    gen_rr(d, n, c.end, left - 1, na, nc + 1, g, depth + 1);
-    if (rdata + rdlen != c.end && rdata + rdlen <= n) gen_rr(d, n, rdata + rdlen, left - 1, na, nc + 1, g, depth + 1);
-  } else {
-    if (rdata + rdlen > n) return;
-    gen_rr(d, n, rdata + rdlen, left - 1, na, nc, g, depth + 1);
+// work-list form (no recursion in the oracle: a 4096-byte datagram frames up to 372 records and the oracle runs on the
+// worker's small stack); both framings of a record may rejoin, so each (offset, records left, counts) is visited once
+static void gen_rr(const uint8_t *d, size_t n, size_t off0, unsigned left0, Generous &g) {
+  typedef std::tuple<size_t, unsigned, size_t, size_t> Item;
+  std::vector<Item> work; work.push_back(Item(off0, left0, 0, 0));
+  while (!work.empty()) {
+    Item it = work.back(); work.pop_back();
+    size_t off = std::get<0>(it); unsigned left = std::get<1>(it); size_t na = std::get<2>(it), nc = std::get<3>(it);
+    if (na > g.max_a) g.max_a = na; if (nc > g.max_c) g.max_c = nc;
+    if (left == 0 || off >= n) continue;
+    if (!g.memo.insert(it).second) continue;
+    if (!skip_name(d, n, off, off)) continue;
+    if (off + 10 > n) continue;
+    unsigned type = rd16(d, off), rdlen = rd16(d, off + 8); size_t rdata = off + 10;
+    if (type == 1) {
+      if (rdata + 4 > n) continue;
+      g.a.insert(Addr{{d[rdata], d[rdata + 1], d[rdata + 2], d[rdata + 3]}});
+      work.push_back(Item(rdata + 4, left - 1, na + 1, nc));
+      if (rdlen != 4 && rdata + rdlen <= n) work.push_back(Item(rdata + rdlen, left - 1, na + 1, nc));
+    } else if (type == 5) {
+      NameRes c = ref_name(d, n, rdata, true); if (!c.ok) continue;
+      g.c.insert(render(c.labels));
+      work.push_back(Item(c.end, left - 1, na, nc + 1));
+      if (rdata + rdlen != c.end && rdata + rdlen <= n) work.push_back(Item(rdata + rdlen, left - 1, na, nc + 1));
+    } else {
+      if (rdata + rdlen > n) continue;
+      work.push_back(Item(rdata + rdlen, left - 1, na, nc));
+    }
   }
 }
 static Generous ref_generous(const uint8_t *d, size_t n) {
@@ -152,6 +199,6 @@ static Generous ref_generous(const uint8_t *d, size_t n) {
   unsigned flags = rd16(d, 2); if (!(flags & 0x8000) || (flags & 0xf)) return g;
   unsigned qd = rd16(d, 4), an = rd16(d, 6); size_t off = 12;
   for (unsigned i = 0; i < qd; i++) { if (off >= n) return g; if (!skip_name(d, n, off, off)) return g; if (off + 4 > n) return g; off += 4; }
-  gen_rr(d, n, off, an, 0, 0, g, 0);
+  gen_rr(d, n, off, an, g);
   return g;
 }
